@@ -88,6 +88,9 @@ def resolve(query, names, determine_namespace=True):
         return NOTFOUND
     if len(ms) == 1:
         return ms[0]
+    if query in ms:
+        # "every task can be addressed by its full name": an exact full name identifies its task whatever else matches
+        return query
     a = [c for c in ms if all(_is_boundary_suffix(c, t) for t in ms)]
     b = [c for c in ms if all(_is_component_suffix(c, t) for t in ms)]
     ra = a[0] if len(a) == 1 else AMBIGUOUS
